@@ -1,10 +1,36 @@
 use crate::Case;
 use crate::oracle::*;
 use rs_opw_kinematics::constraints::Constraints;
+use rs_opw_kinematics::kinematic_traits::{Kinematics, Pose, Joints};
+use rs_opw_kinematics::kinematics_impl::OPWKinematics;
+use rs_opw_kinematics::parameters::opw_kinematics::Parameters;
+
+/// params=a1,a2,b,c1,c2,c3,c4  off=6  sign=6  [dof=..]; defaults: a generic non-degenerate robot
+pub fn opw_of(c: &Case) -> (Opw, Parameters) {
+    let g = c.vo("params").unwrap_or(vec![0.15, -0.11, 0.05, 0.55, 0.61, 0.66, 0.12]);
+    let off = c.vo("off").unwrap_or(vec![0.0; 6]); let sg = c.vo("sign").unwrap_or(vec![1.0; 6]);
+    let o = Opw { a1: g[0], a2: g[1], b: g[2], c1: g[3], c2: g[4], c3: g[5], c4: g[6], off: [off[0], off[1], off[2], off[3], off[4], off[5]],
+                  sign: [sg[0], sg[1], sg[2], sg[3], sg[4], sg[5]] };
+    let p = Parameters { a1: g[0], a2: g[1], b: g[2], c1: g[3], c2: g[4], c3: g[5], c4: g[6], offsets: o.off,
+                         sign_corrections: [sg[0] as i8, sg[1] as i8, sg[2] as i8, sg[3] as i8, sg[4] as i8, sg[5] as i8], dof: c.fo("dof", 6.0) as i8 };
+    (o, p)
+}
+pub fn pose_of(i: &Iso) -> Pose {
+    let r = nalgebra::Rotation3::from_matrix_unchecked(nalgebra::Matrix3::new(i.r[0][0], i.r[0][1], i.r[0][2], i.r[1][0], i.r[1][1], i.r[1][2], i.r[2][0], i.r[2][1], i.r[2][2]));
+    Pose::from_parts(nalgebra::Translation3::new(i.t[0], i.t[1], i.t[2]), nalgebra::UnitQuaternion::from_rotation_matrix(&r))
+}
+pub fn iso_of(p: &Pose) -> Iso {
+    let m = p.rotation.to_rotation_matrix(); let mut r = [[0.0; 3]; 3];
+    for i in 0..3 { for j in 0..3 { r[i][j] = m[(i, j)]; } }
+    Iso { r, t: [p.translation.x, p.translation.y, p.translation.z] }
+}
 
 pub fn run(pid: &str, c: &Case) {
     match pid {
         "C07" => c07(c),
+        "C18" => c18(c),
+        "C05" => c05(c),
+        "C03" => c03(c),
         _ => { println!("reproduced=false"); println!("error=unknown property {}", pid); }
     }
 }
@@ -34,4 +60,79 @@ fn c07(c: &Case) {
         None => { println!("oracle=boundary"); println!("reproduced=false"); }
         Some(w) => { println!("oracle={}", w); println!("reproduced={}", w != got); }
     }
+}
+
+/// case: from=6 to=6 [panic=true]; the thread-local RNG cannot be driven, so the real sampler is run 200000 times
+/// and every draw is judged by the arc oracle (1e-9 margin); a panic of the sampler also reproduces.
+fn c18(c: &Case) {
+    let (from, to) = (c.a6("from"), c.a6("to"));
+    let cons = Constraints::new(from, to, 0.0);
+    let r = std::panic::catch_unwind(|| {
+        let mut bad = 0usize; let mut first: Option<[f64; 6]> = None;
+        for _ in 0..200000 {
+            let q = cons.random_angles();
+            let mut ok = true;
+            for j in 0..6 {
+                if !q[j].is_finite() { ok = false; }
+                if let Some(false) = arc_accepts(from[j], to[j], q[j], 1e-9) { ok = false; }
+            }
+            if !ok { bad += 1; if first.is_none() { first = Some(q); } }
+        }
+        (bad, first)
+    });
+    match r {
+        Err(_) => {
+            // a panic only violates the property for arcs of positive width
+            let mut positive = true;
+            for j in 0..6 { if from[j] > to[j] { let mut b = to[j]; while b < from[j] { b += 2.0 * std::f64::consts::PI; } if b - from[j] <= 0.0 { positive = false; } } }
+            println!("panicked=true"); println!("reproduced={}", positive);
+        }
+        Ok((bad, first)) => { println!("non_compliant_draws={} of 200000", bad); if let Some(q) = first { println!("first_bad={:?}", q); } println!("reproduced={}", bad > 0 && c.s("panic") != "true"); }
+    }
+}
+
+/// C05(a): joints=6 + robot; oracle: axes of joints 4 and 6 (z columns of link frames 4 and 6 of the independent chain)
+/// are collinear within 0.01 degree  <=>  reported singular. Cases within 1e-9 rad of the band edge do not count.
+fn c05(c: &Case) {
+    let (o, p) = opw_of(c); let j = c.a6("joints");
+    let k = OPWKinematics::new(p);
+    let got = k.kinematic_singularity(&j).is_some();
+    let ch = chain(&o, &j);
+    let z4 = [ch[3].r[0][2], ch[3].r[1][2], ch[3].r[2][2]]; let z6 = [ch[5].r[0][2], ch[5].r[1][2], ch[5].r[2][2]];
+    let cr = [z4[1] * z6[2] - z4[2] * z6[1], z4[2] * z6[0] - z4[0] * z6[2], z4[0] * z6[1] - z4[1] * z6[0]];
+    let sn = (cr[0] * cr[0] + cr[1] * cr[1] + cr[2] * cr[2]).sqrt();           // |sin| of the angle between the axes
+    let ang = sn.asin();                                                          // angle to the nearest (anti)parallel position
+    let thr = 0.01f64.to_radians();
+    println!("reported={}", got); println!("axis_angle={:e}", ang);
+    if (ang - thr).abs() < 1e-9 { println!("oracle=boundary"); println!("reproduced=false"); return; }
+    let want = ang < thr;
+    println!("oracle={}", want); println!("reproduced={}", want != got);
+}
+
+fn iso_diff(a: &Iso, b: &Iso) -> (f64, f64) { (dist(&a.t, &b.t), rot_angle(&a.r, &b.r).abs()) }
+
+/// C03: params/off/sign/joints -> real forward and forward_with_joint_poses vs the independent chain.
+/// Reproduced when any pose differs by more than 1e-7 (relative to the robot size) or a rotation is not proper.
+fn c03(c: &Case) {
+    let (o, p) = opw_of(c); let j = c.a6("joints");
+    let k = OPWKinematics::new(p);
+    let ch = chain(&o, &j);
+    let scale = 1.0 + [o.a1, o.a2, o.b, o.c1, o.c2, o.c3, o.c4].iter().map(|x| x.abs()).sum::<f64>();
+    let f = iso_of(&k.forward(&j));
+    let ps = k.forward_with_joint_poses(&j);
+    let mut bad = Vec::new();
+    let (dt, dr) = iso_diff(&f, &ch[5]);
+    if !(dt <= 1e-7 * scale && dr <= 1e-7) { bad.push(format!("forward vs chain: dt={:e} dr={:e}", dt, dr)); }
+    for i in 0..6 {
+        let (dt, dr) = iso_diff(&iso_of(&ps[i]), &ch[i]);
+        if !(dt <= 1e-7 * scale && dr <= 1e-7) { bad.push(format!("poses[{}] vs chain: dt={:e} dr={:e}", i, dt, dr)); }
+    }
+    let rrt = mm(&f.r, &tr(&f.r));
+    for i in 0..3 { for k2 in 0..3 { if (rrt[i][k2] - if i == k2 { 1.0 } else { 0.0 }).abs() > 1e-7 { bad.push(format!("forward R R^T [{}][{}] = {}", i, k2, rrt[i][k2])); } } }
+    if (det(&f.r) - 1.0).abs() > 1e-7 { bad.push(format!("det forward.R = {}", det(&f.r))); }
+    let fin = f.t.iter().all(|x| x.is_finite()) && f.r.iter().all(|r| r.iter().all(|x| x.is_finite()));
+    let inputs_finite = j.iter().all(|x| x.is_finite()) && scale.is_finite() && o.off.iter().all(|x| x.is_finite());
+    if inputs_finite && !fin { bad.push("non-finite forward".into()); }
+    for b in &bad { println!("diff={}", b); }
+    println!("reproduced={}", !bad.is_empty());
 }
